@@ -68,12 +68,39 @@ enum Check {
     Cwe332 { pairs: Vec<(String, String)> },
 }
 
+/// How addresses are assigned to the call blocks and call jumps (TID ids are unique in every mode).
+#[derive(Serialize, Deserialize, Clone, Copy, Debug, PartialEq, Eq, Default)]
+enum Addr {
+    /// every block and every call jump has its own address
+    #[default]
+    Distinct,
+    /// the call chain of function 1 is a duplicate of the chain of function 0 (a block shared by two functions,
+    /// as `normalize` duplicates it): ids carry the suffix `_FUN_2000`, block and jump addresses are those of function 0
+    SharedAcrossFunctions,
+    /// all call blocks of a function belong to one instruction: same block and jump address, ids differ in the
+    /// P-Code operation index
+    SharedWithinFunction,
+    /// both of the above: every call site of the program has the same address
+    SharedEverywhere,
+}
+impl Addr {
+    fn across(self) -> bool {
+        matches!(self, Addr::SharedAcrossFunctions | Addr::SharedEverywhere)
+    }
+    fn within(self) -> bool {
+        matches!(self, Addr::SharedWithinFunction | Addr::SharedEverywhere)
+    }
+}
+
 #[derive(Serialize, Deserialize, Clone, Debug)]
 struct Case {
     /// names of the imported symbols (unique)
     table: Vec<String>,
     /// per internal function its call sites in block order
     funcs: Vec<Vec<Target>>,
+    /// address assignment (absent in older replay files: distinct addresses)
+    #[serde(default)]
+    addr: Addr,
     check: Check,
 }
 
@@ -92,6 +119,7 @@ struct Spec {
     /// universe indices, ascending
     table: Vec<u8>,
     funcs: [Vec<T>; NF],
+    addr: Addr,
 }
 
 #[derive(Clone, Debug)]
@@ -120,6 +148,7 @@ impl Spec {
         Case {
             table: self.table.iter().map(|s| uname(*s)).collect(),
             funcs: self.funcs.iter().map(|f| f.iter().map(t).collect()).collect(),
+            addr: self.addr,
             check: match cfg {
                 Cfg::Cwe676(l) => Check::Cwe676 { symbols: l.iter().map(|s| uname(*s)).collect() },
                 Cfg::Cwe782 => Check::Cwe782,
@@ -164,7 +193,7 @@ impl Spec {
             Check::Cwe426 { symbols } => Cfg::Cwe426(symbols.iter().map(|s| uidx(s)).collect()),
             Check::Cwe332 { pairs } => Cfg::Cwe332(pairs.iter().map(|(a, b)| (uidx(a), uidx(b))).collect()),
         };
-        (Spec { table: table.clone(), funcs: [f(0), f(1)] }, cfg)
+        (Spec { table: table.clone(), funcs: [f(0), f(1)], addr: c.addr }, cfg)
     }
 }
 
@@ -187,50 +216,69 @@ fn fn_base(i: usize) -> usize {
 fn chain_off(i: usize) -> usize {
     usize::from(i == 1)
 }
-fn blk_addr(i: usize, k: usize) -> usize {
-    fn_base(i) + 0x10 * (k + chain_off(i))
+/// Address of the k-th chain block of function i (k = number of sites: the final return block).
+fn blk_addr(m: Addr, i: usize, k: usize) -> usize {
+    let (base, off) = if m.across() { (fn_base(0), chain_off(0)) } else { (fn_base(i), chain_off(i)) };
+    let pos = if m.within() { 0 } else { k };
+    base + 0x10 * (pos + off)
 }
-fn call_addr(i: usize, k: usize) -> usize {
-    blk_addr(i, k) + 8
+fn call_addr(m: Addr, i: usize, k: usize) -> usize {
+    blk_addr(m, i, k) + 8
+}
+/// Suffix that block duplication appends to the ids of the copy that ends up in function 1.
+fn dup_suffix(m: Addr, i: usize) -> &'static str {
+    if m.across() && i == 1 {
+        "_FUN_2000"
+    } else {
+        ""
+    }
 }
 fn fun_tid(i: usize) -> Tid {
     tid_at(&format!("FUN_{:x}", fn_base(i)), &format!("{:x}", fn_base(i)))
 }
-fn blk_tid(i: usize, k: usize) -> Tid {
-    tid_at(&format!("blk_{:x}", blk_addr(i, k)), &format!("{:x}", blk_addr(i, k)))
+fn blk_tid(m: Addr, i: usize, k: usize) -> Tid {
+    let a = blk_addr(m, i, k);
+    let part = if m.within() && k > 0 { format!("_{k}") } else { String::new() };
+    tid_at(&format!("blk_{a:x}{part}{}", dup_suffix(m, i)), &format!("{a:x}"))
 }
-fn call_tid(i: usize, k: usize) -> Tid {
-    tid_at(&format!("instr_{:x}_1", call_addr(i, k)), &format!("{:x}", call_addr(i, k)))
+/// TID of the `op`-th term (0 = def, 1 = jump) of the k-th call instruction of function i.
+fn instr_tid(m: Addr, i: usize, k: usize, op: usize) -> Tid {
+    let a = call_addr(m, i, k);
+    let index = if m.within() { 2 * k + op } else { op };
+    tid_at(&format!("instr_{a:x}_{index}{}", dup_suffix(m, i)), &format!("{a:x}"))
+}
+fn call_tid(m: Addr, i: usize, k: usize) -> Tid {
+    instr_tid(m, i, k, 1)
 }
 fn ext_tid(s: u8) -> Tid {
     tid(&format!("EXT_{}", UNIVERSE[s as usize]))
 }
 
-fn build_sub(i: usize, sites: &[T]) -> Term<Sub> {
+fn build_sub(m: Addr, i: usize, sites: &[T]) -> Term<Sub> {
     let mut blocks = Vec::with_capacity(sites.len() + 2);
     let last = sites.len();
     if i == 1 {
         // entry block with the extractor's [CBRANCH, BRANCH] pair: either skip all calls or run them
         let a = fn_base(i);
         let jmps = vec![
-            Term { tid: tid_at(&format!("instr_{:x}_0", a + 4), &format!("{:x}", a + 4)), term: Jmp::CBranch { target: blk_tid(i, last), condition: reg("ZF", 1) } },
-            Term { tid: tid_at(&format!("instr_{:x}_1", a + 4), &format!("{:x}", a + 4)), term: Jmp::Branch(blk_tid(i, 0)) },
+            Term { tid: tid_at(&format!("instr_{:x}_0", a + 4), &format!("{:x}", a + 4)), term: Jmp::CBranch { target: blk_tid(m, i, last), condition: reg("ZF", 1) } },
+            Term { tid: tid_at(&format!("instr_{:x}_1", a + 4), &format!("{:x}", a + 4)), term: Jmp::Branch(blk_tid(m, i, 0)) },
         ];
         blocks.push(Term { tid: tid_at(&format!("blk_{a:x}"), &format!("{a:x}")), term: Blk { defs: Vec::new(), jmps, indirect_jmp_targets: Vec::new() } });
     }
     for (k, t) in sites.iter().enumerate() {
-        let ret = Some(blk_tid(i, k + 1));
+        let ret = Some(blk_tid(m, i, k + 1));
         let term = match t {
             T::Sym(s) => Jmp::Call { target: ext_tid(*s), return_: ret },
             T::Fn(f) => Jmp::Call { target: fun_tid(*f as usize), return_: ret },
             T::Absent => Jmp::Call { target: tid_at("FUN_dead0", "dead0"), return_: ret },
             T::Indirect => Jmp::CallInd { target: reg("RAX", 8), return_: ret },
         };
-        let defs = vec![assign(&format!("instr_{:x}_0", call_addr(i, k)), var("RDI", 8), reg("RBX", 8))];
-        blocks.push(Term { tid: blk_tid(i, k), term: Blk { defs, jmps: vec![Term { tid: call_tid(i, k), term }], indirect_jmp_targets: Vec::new() } });
+        let defs = vec![Term { tid: instr_tid(m, i, k, 0), term: Def::Assign { var: var("RDI", 8), value: reg("RBX", 8) } }];
+        blocks.push(Term { tid: blk_tid(m, i, k), term: Blk { defs, jmps: vec![Term { tid: call_tid(m, i, k), term }], indirect_jmp_targets: Vec::new() } });
     }
-    let ret_jmp = Term { tid: call_tid(i, last), term: Jmp::Return(reg("RAX", 8)) };
-    blocks.push(Term { tid: blk_tid(i, last), term: Blk { defs: Vec::new(), jmps: vec![ret_jmp], indirect_jmp_targets: Vec::new() } });
+    let ret_jmp = Term { tid: call_tid(m, i, last), term: Jmp::Return(reg("RAX", 8)) };
+    blocks.push(Term { tid: blk_tid(m, i, last), term: Blk { defs: Vec::new(), jmps: vec![ret_jmp], indirect_jmp_targets: Vec::new() } });
     Term { tid: fun_tid(i), term: Sub { name: FN_NAMES[i].to_string(), blocks, calling_convention: None } }
 }
 
@@ -238,7 +286,7 @@ fn set_program(project: &mut Project, spec: &Spec) {
     let p = &mut project.program.term;
     p.subs.clear();
     for i in 0..NF {
-        let s = build_sub(i, &spec.funcs[i]);
+        let s = build_sub(spec.addr, i, &spec.funcs[i]);
         p.subs.insert(s.tid.clone(), s);
     }
     p.extern_symbols.clear();
@@ -265,6 +313,7 @@ fn calls_imported(spec: &Spec, i: usize, pred: &dyn Fn(u8) -> bool) -> bool {
 /// Expected warnings of the three site-based checks: `(must, may)`. `may` holds warnings for which the
 /// statement leaves the outcome open (see the CWE426 case); both outcomes are accepted for them.
 fn expected_sites(spec: &Spec, cfg: &Cfg) -> (Vec<W>, Vec<W>) {
+    let m = spec.addr;
     let mut out = Vec::new();
     let mut may = Vec::new();
     match cfg {
@@ -273,7 +322,7 @@ fn expected_sites(spec: &Spec, cfg: &Cfg) -> (Vec<W>, Vec<W>) {
             for i in 0..NF {
                 for (k, t) in spec.funcs[i].iter().enumerate() {
                     if matches!(t, T::Sym(s) if imported(spec, *s) && list.contains(s)) {
-                        out.push(("CWE676".to_string(), vec![format!("{:x}", call_addr(i, k))], vec![call_tid(i, k).to_string()], vec![]));
+                        out.push(("CWE676".to_string(), vec![format!("{:x}", call_addr(m, i, k))], vec![call_tid(m, i, k).to_string()], vec![]));
                     }
                 }
             }
@@ -284,7 +333,7 @@ fn expected_sites(spec: &Spec, cfg: &Cfg) -> (Vec<W>, Vec<W>) {
             for i in 0..NF {
                 for (k, t) in spec.funcs[i].iter().enumerate() {
                     if matches!(t, T::Sym(s) if imported(spec, *s) && *s == ioctl) {
-                        out.push(("CWE782".to_string(), vec![format!("{:x}", call_addr(i, k))], vec![call_tid(i, k).to_string()], vec![]));
+                        out.push(("CWE782".to_string(), vec![format!("{:x}", call_addr(m, i, k))], vec![call_tid(m, i, k).to_string()], vec![]));
                     }
                 }
             }
@@ -528,18 +577,57 @@ fn alphabet(table: &[u8]) -> Vec<T> {
     a
 }
 
-/// The (number of sites in function 0, number of sites in function 1) shapes of a tier.
-fn shapes(thorough: bool) -> Vec<(usize, usize)> {
+/// The (number of sites in function 0, number of sites in function 1) shapes: each function <= MAX_SITES,
+/// quick additionally <= MAX_SITES in total, and never more than `max_total` in total.
+fn shapes(thorough: bool, max_total: usize) -> Vec<(usize, usize)> {
     let mut v = Vec::new();
     for a in 0..=MAX_SITES {
         for b in 0..=MAX_SITES {
-            if thorough || a + b <= MAX_SITES {
+            if (thorough || a + b <= MAX_SITES) && a + b <= max_total {
                 v.push((a, b));
             }
         }
     }
     v.sort_by_key(|(a, b)| (a + b, *a));
     v
+}
+
+/// Run `cfgs` on every program of (every table) x (every shape) x (every target sequence) under one address mode.
+/// Returns the number of programs.
+fn explore_layouts(ctx: &Ctx, tabs: &[Vec<u8>], shp: &[(usize, usize)], addr: Addr, cfgs: &[(Cfg, Value)], what: &str) -> u64 {
+    // index space: for every table, for every shape, all target sequences
+    let mut segments: Vec<(usize, usize, u64, u64)> = Vec::new(); // (table, shape, first index, count)
+    let mut total = 0u64;
+    for (ti, t) in tabs.iter().enumerate() {
+        let k = (t.len() + 4) as u64;
+        for (si, (a, b)) in shp.iter().enumerate() {
+            let n = k.pow((a + b) as u32);
+            segments.push((ti, si, total, n));
+            total += n;
+        }
+    }
+    par_fold(
+        total,
+        64,
+        Acc::new,
+        |acc, idx| {
+            let seg = segments.partition_point(|s| s.2 + s.3 <= idx);
+            let (ti, si, first, _) = segments[seg];
+            let table = &tabs[ti];
+            let alpha = alphabet(table);
+            let (a, b) = shp[si];
+            let dims = vec![alpha.len() as u64; a + b];
+            let d = mcx::space::decode(idx - first, &dims);
+            let spec = Spec { table: table.clone(), funcs: [d[..a].iter().map(|i| alpha[*i]).collect(), d[a..].iter().map(|i| alpha[*i]).collect()], addr };
+            ctx.sample(|| {
+                let c = spec.to_case(&Cfg::Cwe782);
+                json!({"table": c.table, "funcs": c.funcs, "addr": c.addr, "checks": what})
+            });
+            run_program(ctx, acc, &spec, &mut cfgs.iter());
+        },
+        |acc| acc.flush(ctx),
+    );
+    total
 }
 
 fn main() {
@@ -583,39 +671,21 @@ fn main() {
     }
 
     // phase A: every table x every call-site layout x every <=2-entry list (CWE676, CWE426), CWE782,
-    // and every <=1-pair list (CWE332)
+    // and every <=1-pair list (CWE332); all addresses distinct
     let tabs = tables();
-    let shp = shapes(thorough);
-    // index space: for every table, for every shape, all target sequences
-    let mut segments: Vec<(usize, usize, u64, u64)> = Vec::new(); // (table, shape, first index, count)
-    let mut total = 0u64;
-    for (ti, t) in tabs.iter().enumerate() {
-        let k = (t.len() + 4) as u64;
-        for (si, (a, b)) in shp.iter().enumerate() {
-            let n = k.pow((a + b) as u32);
-            segments.push((ti, si, total, n));
-            total += n;
-        }
-    }
-    par_fold(
-        total,
-        64,
-        Acc::new,
-        |acc, idx| {
-            let seg = segments.partition_point(|s| s.2 + s.3 <= idx);
-            let (ti, si, first, _) = segments[seg];
-            let table = &tabs[ti];
-            let alpha = alphabet(table);
-            let (a, b) = shp[si];
-            let dims = vec![alpha.len() as u64; a + b];
-            let d = mcx::space::decode(idx - first, &dims);
-            let spec = Spec { table: table.clone(), funcs: [d[..a].iter().map(|i| alpha[*i]).collect(), d[a..].iter().map(|i| alpha[*i]).collect()] };
-            ctx.sample(|| json!({"table": spec.to_case(&Cfg::Cwe782).table, "funcs": spec.to_case(&Cfg::Cwe782).funcs, "checks": "CWE676 x 73 lists, CWE782, CWE426 x 73 lists, CWE332 x 65 pair lists"}));
-            run_program(ctx, acc, &spec, &mut per_program.iter());
-        },
-        |acc| acc.flush(ctx),
-    );
+    let total = explore_layouts(ctx, &tabs, &shapes(thorough, 2 * MAX_SITES), Addr::Distinct, &per_program, "CWE676 x 73 lists, CWE782, CWE426 x 73 lists, CWE332 x 65 pair lists");
     ctx.stat("phaseA_programs", total);
+
+    // phase C: call sites that share an address (TID ids stay unique): a block duplicated into both functions,
+    // several calls inside one instruction, and both at once. One warning per call is still demanded; the
+    // oracle identifies a call by its TID and address. CWE332 does not look at call sites and is left out here.
+    let site_checks: Vec<(Cfg, Value)> = per_program.iter().filter(|c| !matches!(c.0, Cfg::Cwe332(_))).cloned().collect();
+    let shapes_c = shapes(thorough, if thorough { MAX_SITES + 1 } else { MAX_SITES });
+    let mut total_c = 0;
+    for mode in [Addr::SharedAcrossFunctions, Addr::SharedWithinFunction, Addr::SharedEverywhere] {
+        total_c += explore_layouts(ctx, &tabs, &shapes_c, mode, &site_checks, "CWE676 x 73 lists, CWE782, CWE426 x 73 lists");
+    }
+    ctx.stat("phaseC_programs_with_shared_addresses", total_c);
 
     // phase B: CWE332 with every list of two pairs, on every table, for a program without call sites and a
     // program that calls every imported symbol (the statement does not look at call sites at all)
@@ -632,7 +702,7 @@ fn main() {
                     funcs[n / 2].push(T::Sym(*s));
                 }
             }
-            let spec = Spec { table: table.clone(), funcs };
+            let spec = Spec { table: table.clone(), funcs, addr: Addr::Distinct };
             run_program(ctx, acc, &spec, &mut two_pairs.iter());
         },
         |acc| acc.flush(ctx),
@@ -646,12 +716,13 @@ fn main() {
             "extern_tables": format!("all {} subsets of the universe with <= {MAX_TABLE} symbols", tabs.len()),
             "functions": "2 internal functions: main (call chain), strcpy (internal function with the name of a universe symbol; conditional entry block, then call chain)",
             "call_sites": if thorough { "0..=3 per function (all 16 shapes)" } else { "0..=3 in total over both functions (all 10 shapes)" },
+            "addresses": if thorough { "distinct for all of the above; additionally three shared-address modes (call chain of function 1 = duplicate of function 0's with suffixed ids; all calls of a function in one instruction; both) on all layouts with <= 3 sites per function and <= 4 in total, for CWE676/CWE782/CWE426" } else { "distinct for all of the above; additionally three shared-address modes (call chain of function 1 = duplicate of function 0's with suffixed ids; all calls of a function in one instruction; both) on all layouts of this tier, for CWE676/CWE782/CWE426" },
             "call_targets": "every table symbol, each internal function, an absent TID, an indirect call",
             "config_lists": "CWE676/CWE426: all 73 ordered lists with <= 2 entries over the universe (duplicates, names absent from the binary); CWE782: shipped config; CWE332: all pair lists with <= 1 pair on every program, all 4096 two-pair lists on every table for a program without and one with calls to every imported symbol",
         }),
     );
     ctx.assume("symbol names are unique per extern table (the extractor folds thunks into one symbol)");
-    ctx.assume("the key of an extern symbol in the table is its own TID; call jumps have unique TIDs and addresses; every call has an existing return block");
+    ctx.assume("the key of an extern symbol in the table is its own TID; call jumps have unique TID ids (addresses may coincide, see bounds.addresses); every call has an existing return block");
     ctx.assume("CWE332, a pair configured twice: one or two warnings are accepted (the statement does not fix the multiplicity)");
     ctx.assume("CWE426: a function that calls system and an internal (not imported) function whose name is on the privilege list, but no imported listed symbol: warning or no warning both accepted");
     ctx.assume("not judged: description wording (except that a CWE332 warning names both symbols of its pair as words), `other`, version, `symbols` of CWE676/CWE782 warnings, log messages");
